@@ -216,6 +216,11 @@ type sqlClass struct {
 	fail bool
 	scan string // query entries: which scan failure ("" none)
 	pan  bool   // exec: the driver panics; transact: the body panics
+	// error-value shape of one of the predicate's sentinels (c01_shapes_sites_test.go); nil for the plain classes
+	shape *vfC01ShCombo
+	// dial: the error arises when the SqlConn acquires its *sql.DB (connProv: sql.Open + Ping of a
+	// sqlx.NewSqlConn over the registered scripted driver, c01_sqlx_dial_test.go), not in the statement
+	dial bool
 }
 
 func sqlFixed(e error) func(int64) error { return func(int64) error { return e } }
@@ -316,6 +321,10 @@ type sqlHist struct {
 	legal int64
 	must  int64
 	sig   []any
+	// relabel: when set (shape floods), the key of every illegal rejection on a single connection
+	relabel string
+	// dsn: set for histories over sqlx.NewSqlConn(sqlDialDriver, dsn) (c01_sqlx_dial_test.go)
+	dsn string
 }
 
 type sqlOp struct {
@@ -351,7 +360,19 @@ func (h *sqlHist) close() {
 			sd.stmt.Close()
 		}
 	}
-	h.db.Close()
+	if h.db != nil {
+		h.db.Close()
+	}
+	if h.dsn != "" {
+		// the *sql.DB of a NewSqlConn belongs to go-zero's connection manager (cached per DSN for the
+		// life of the process; DSNs are never reused): close it so that its goroutine and connection go away
+		if h.s.count("dial-ok") > 0 {
+			if db, err := h.sides[0].conn.RawDB(); err == nil {
+				db.Close()
+			}
+		}
+		sqlDialScripts.Delete(h.dsn)
+	}
 }
 
 func (h *sqlHist) witness(detail string) map[string]any {
@@ -597,7 +618,7 @@ func (h *sqlHist) step(op sqlOp) verdict {
 	case "transact":
 		runKind = "begin"
 		where := op.variant & 3
-		if e == nil || cl.pan {
+		if e == nil || cl.pan || cl.dial {
 			where = 0
 		}
 		desc += " error-arises:" + sqlTxWhere[where]
@@ -642,6 +663,15 @@ func (h *sqlHist) step(op sqlOp) verdict {
 		}
 		checkResult = func() string { return "" }
 		beginFails = where == 1
+	}
+	if cl.dial {
+		// the database cannot be reached: the driver's Open fails, so does the Ping of the lazily created
+		// *sql.DB, connProv() returns that error inside the breaker-protected closure; the "request" of
+		// this call is the dial attempt
+		s.set(&sqlAns{kind: "dial", err: e, lat: op.lat})
+		runKind = "dial"
+		beginFails = true // no transaction is begun, its body is not demanded
+		desc += " [the connection cannot be acquired: driver Open fails]"
 	}
 	if op.lat > 0 {
 		desc += fmt.Sprintf(" lat=%v", op.lat)
@@ -764,7 +794,11 @@ func (h *sqlHist) step(op sqlOp) verdict {
 					fmt.Sprintf("%s call on %s rejected although the window of that SqlConn holds accepted=%d, non-accepted=%d; only together with the calls on the other SqlConn (accepted=%d, non-accepted=%d) would a rejection be allowed", op.entry, sd.label, p.A, p.N, up.A, up.N),
 					h.witness("one breaker per SqlConn"))
 			} else {
-				c.Viol("C01/illegal-reject/sqlx/"+p.illegalKey(),
+				key := "C01/illegal-reject/sqlx/" + p.illegalKey()
+				if h.relabel != "" {
+					key = h.relabel
+				}
+				c.Viol(key,
 					fmt.Sprintf("sqlx %s rejected although the window of the SqlConn holds accepted=%d, non-accepted=%d: %d does not exceed 5 + 10%% of %d", op.entry, p.A, p.N, p.N, p.A),
 					h.witness(fmt.Sprintf("accepted=%d nonaccepted=%d at the rejected (last) call", p.A, p.N)))
 			}
@@ -834,6 +868,7 @@ func runSqlx(c *kit.Case, vc *kit.VClock) {
 	pCtx := kit.Choose(r, []float64{0, 0.3, 1})
 	pDone := kit.Choose(r, []float64{0, 0.05, 0.2})
 	pLat := kit.Choose(r, []float64{0, 0.1})
+	pShape := kit.Choose(r, []float64{0, 0.3, 0.6})
 	g := newGen(r)
 	for i := 0; i < L && !c.Violated(); i++ {
 		op := sqlOp{gap: g.gap(), variant: r.Intn(4)}
@@ -851,10 +886,19 @@ func runSqlx(c *kit.Case, vc *kit.VClock) {
 		}
 		if r.Chance(pf) {
 			op.cl = sqlPickClass(r, sqlFailClasses, op.entry, sd.cfg)
+			if r.Chance(pShape) { // a negative control / a shape of a sentinel the predicate refuses
+				op.cl = &sqlShFail[r.Intn(len(sqlShFail))]
+			}
 		} else if r.Chance(0.35) {
 			op.cl = &sqlOkClasses[0]
 		} else {
 			op.cl = sqlPickClass(r, sqlOkClasses, op.entry, sd.cfg)
+			if r.Chance(pShape) { // sql.ErrNoRows / sql.ErrTxDone / context.Canceled in one of the errors.Is shapes
+				op.cl = &sqlShOk[r.Intn(len(sqlShOk))]
+			}
+		}
+		if op.cl.shape != nil {
+			c.Obs("sqlx_shape_calls_in_random_histories", 1)
 		}
 		if r.Chance(pCtx) {
 			op.ctx = cLive
